@@ -90,6 +90,10 @@ class TermEval:
             a, b = self.ev(t[2]), self.ev(t[3])
             if isinstance(a, int) and isinstance(b, int) and not isinstance(a, bool) and not isinstance(b, bool) and t[1] in BINF:
                 return BINF[t[1]](a, b)
+            if isinstance(a, int) and isinstance(b, int) and not isinstance(a, bool) and not isinstance(b, bool) and t[1] in ('FloorDiv', 'Mod'):
+                if b == 0:
+                    raise Raises('ZeroDivisionError: integer division or modulo by zero')
+                return a // b if t[1] == 'FloorDiv' else a % b
             raise Unknown('arithmetic %s on %r, %r' % (t[1], a, b))
         if k == 'un' and t[1] == 'USub':
             a = self.ev(t[2])
@@ -181,6 +185,8 @@ class PyEval(TermEval):
         if r is not NOATOM:
             return r
         k = t[0]
+        if k == 'pyval':
+            return t[1]
         if k == 'bvar':
             if t[1] in self.benv:
                 return self.benv[t[1]]
@@ -304,8 +310,14 @@ class PyEval(TermEval):
                 names = [ty[1]] if ty[0] == 'sym' else [x[1] for x in ty[1]] if ty[0] == 'tuple' else []
                 pyt = {'list': list, 'tuple': tuple, 'int': int, 'str': str, 'dict': dict, 'float': float, 'bool': bool}
                 return any(isinstance(v, pyt[n]) and not (n == 'int' and isinstance(v, bool)) for n in names if n in pyt)
+            if f == S('map') and len(t[2]) == 2 and not t[3] and t[2][0][0] == 'sym' and t[2][0][1] in ('tuple', 'list', 'int', 'str', 'len', 'abs', 'bool'):
+                # map(<builtin>, X): the list of converted elements (consumed by len / set / sorted / a loop: laziness is not observable)
+                g = t[2][0]
+                return [self.ev(CALL(g, [('pyval', x)])) for x in self.ev(t[2][1])]
             if f[0] == 'sym' and f[1] in ('len', 'all', 'any', 'sorted', 'list', 'tuple', 'max', 'min', 'sum', 'range', 'set', 'abs', 'int', 'str', 'bool') and not t[3]:
                 args = [self.ev(x) for x in t[2]]
+                if not args and f[1] in ('set', 'list', 'tuple'):
+                    return [] if f[1] != 'tuple' else ()
                 try:
                     if f[1] == 'all':
                         return all(self.truth(x) for x in args[0])
@@ -522,6 +534,7 @@ def simulate(pe, effs, is_error):
     """Walk an effect tree in program order under the evaluator's valuation: conditions are evaluated (an exception they
     would raise propagates as Raises), loops over evaluable configuration domains are iterated, the first effect for
     which is_error() holds ends the walk with Refused.  Returns normally when the end is reached."""
+    left_loops = set()
     for e in effs:
         k = e.kind
         if k == 'if':
@@ -545,13 +558,26 @@ def simulate(pe, effs, is_error):
                     if lv.kind == 'continue':
                         continue
                     raise
-        elif k in ('call', 'iter'):
-            if k == 'call' and getattr(e, 'target', None) is not None and _is_generator(e.target):
+        elif k == 'iter':
+            # one unrolled iteration of a loop over a literal: `continue` ends this iteration, `break` this and the remaining ones
+            if left_loops and getattr(e, 'line', None) in left_loops:
+                continue
+            try:
+                simulate(pe, e.body, is_error)
+            except Leave as lv:
+                if lv.kind == 'continue':
+                    continue
+                if lv.kind == 'break':
+                    left_loops.add(getattr(e, 'line', None))
+                    continue
+                raise
+        elif k == 'call':
+            if getattr(e, 'target', None) is not None and _is_generator(e.target):
                 continue          # a generator body runs lazily, driven by its consumer: its conditions are evaluated through the consuming term
             try:
                 simulate(pe, e.body, is_error)
             except Leave as lv:
-                if lv.kind != 'return' or k == 'iter':
+                if lv.kind != 'return':
                     raise
         elif k == 'return':
             raise Leave('return')
